@@ -303,7 +303,21 @@ def _from_resolved(repo, r, depth):
     if r[0] == 'func':
         return FuncRef(r[1])
     if r[0] == 'value' and r[3] is not None:
-        return const_eval(repo, r[1], r[3], None, None, depth + 1)
+        v = const_eval(repo, r[1], r[3], None, None, depth + 1)
+        items = getattr(r[1], 'item_assigns', {}).get(r[2])
+        if items and isinstance(v, dict):
+            # a module-level table filled by item assignment
+            v = dict(v)
+            for k_, v_ in items:
+                kk = const_eval(repo, r[1], k_, None, None, depth + 1)
+                vv = const_eval(repo, r[1], v_, None, None, depth + 1)
+                if kk is UNKNOWN or vv is UNKNOWN:
+                    return UNKNOWN
+                try:
+                    v[kk] = vv
+                except TypeError:
+                    return UNKNOWN
+        return v
     return UNKNOWN
 
 
